@@ -195,7 +195,7 @@ func runShard(ctx context.Context, bin, id, tier string, cfg propCfg, tc tierCfg
 	defer cancel()
 	args := []string{
 		"-test.run", "^" + testRun + "$", "-test.timeout", "0", "-test.count", "1",
-		"-rapid.nofailfile", "-rapid.shrinktime", "45s",
+		"-rapid.nofailfile", "-rapid.shrinktime", shrinkTime(cfg),
 		"-rapid.checks", strconv.Itoa(tc.Checks),
 		"-rapid.seed", strconv.FormatInt(seed*1000+int64(k)+1, 10),
 	}
@@ -572,6 +572,14 @@ func check(id, tier string) int {
 	}
 	fmt.Printf("OK property=%s held on everything explored\n", id)
 	return 0
+}
+
+// shrinkTime: end-to-end cases cost seconds each, so their minimisation budget is smaller.
+func shrinkTime(cfg propCfg) string {
+	if cfg.NeedBins {
+		return "20s"
+	}
+	return "45s"
 }
 
 func sampleCap() int {
